@@ -33,6 +33,12 @@ class StrRaises(Exception):
     __repr__ = __str__
 
 
+class StrOnlyRaises(Exception):
+    """cannot be turned into text, but can be shown with repr()"""
+    def __str__(self):
+        raise RuntimeError("str() of this exception fails")
+
+
 def make_target(lab):
     P = lab.P
 
@@ -52,7 +58,7 @@ def make_target(lab):
                 x.fn = lambda: 1
                 raise x
             if kind == "strraise":
-                raise StrRaises("boom")
+                raise rotate("strclass", [StrRaises, StrOnlyRaises, StrOnlyRaises])("boom")
             raise ZeroDivisionError(kind)
 
         @P.callback
